@@ -114,6 +114,17 @@ theorem crc32_detects_byte (pre suf : Bytes) (b b' : UInt8) (hne : b ≠ b') :
   have := crcUpdate_inj _ _ suf (crcByte_lt _ b hr) (crcByte_lt _ b' hr) he
   exact hne (crcByte_inj_byte _ b b' hr this)
 
+/-- flip bit `k % 8` (least significant = 0) of byte `k / 8` -/
+def flipBit (bs : Bytes) (k : Nat) : Bytes :=
+  bs.set (k / 8) (bs.getD (k / 8) 0 ^^^ ((1 : UInt8) <<< UInt8.ofNat (k % 8)))
+
+theorem flip_ne_aux : ∀ n, n < 256 → ∀ j, j < 8 → (UInt8.ofNat n ^^^ ((1 : UInt8) <<< UInt8.ofNat j)) ≠ UInt8.ofNat n := by
+  decide +kernel
+
+theorem flip_ne (b : UInt8) (j : Nat) (hj : j < 8) : b ^^^ ((1 : UInt8) <<< UInt8.ofNat j) ≠ b := by
+  have := flip_ne_aux b.toNat b.toNat_lt j hj
+  simpa using this
+
 /-- the standard check value -/
 theorem crc32_check : crc32 [0x31, 0x32, 0x33, 0x34, 0x35, 0x36, 0x37, 0x38, 0x39] = 0xCBF43926 := by decide +kernel
 
